@@ -1,5 +1,6 @@
 import TextxVerif.Proofs.ExportModel
 import TextxVerif.Proofs.ExportPuml
+import TextxVerif.Proofs.ExportTotal
 /-!
 # C29 — graph exports are well-formed for any model and metamodel
 
@@ -123,6 +124,34 @@ theorem C29_model_export_valid (h : Heap) (roots : List Root) (hh : HeapOk h) (t
         | step _ ho ht ih =>
           rw [← hproc]
           exact e.closed _ ((hids _).mp ih) _ ho _ ht
+
+/-- Every object reachable from a root is *recognised* as a node statement whose `label`
+is a well-formed record: the link between `C29_model_export_valid` and what a DOT reader
+sees. -/
+theorem C29_model_nodes_recognised (h : Heap) (roots : List Root) (hh : HeapOk h) (text : Str)
+    (he : exportModel h roots = some text) (i : Nat) (hi : Reach h roots i) :
+    ∃ evs n a, recognise text = some evs ∧
+      Ev.node (.num (digits i)) [(Tok.id cl!"label", .qstr (recordLabel n a))] ∈ evs ∧
+      recOk (recordLabel n a) = true := by
+  obtain ⟨ss, _, _, hrec, _, hlab, _, _, hreach⟩ := C29_model_export_valid h roots hh text he
+  have hmem := hreach i hi
+  simp only [nodeIds, List.mem_filterMap] at hmem
+  obtain ⟨s, hs, hsi⟩ := hmem
+  cases s <;> simp only [Stmt.nodeId?, Option.some.injEq] at hsi <;> try (exact absurd hsi (by simp))
+  rename_i m j n a
+  subst hsi
+  refine ⟨_, n, a, hrec, ?_, hlab m j n a hs⟩
+  apply List.mem_append_right
+  apply List.mem_flatMap.mpr
+  exact ⟨_, hs, by simp [stmtEvs]⟩
+
+/-- **Totality.** On a closed object graph (every referenced object exists; ids identify
+objects) with existing roots the model of the export always produces a text: the
+recursion depth of `_export` never exceeds the number of objects.  Together with
+`C29_model_export_valid` the hypothesis `exportModel … = some text` there is always met. -/
+theorem C29_model_export_total (h : Heap) (roots : List Root) (hc : Closed h) (hr : ∀ r ∈ roots, Valid h r.id) :
+    ∃ text, exportModel h roots = some text :=
+  exportModel_total h hc roots hr
 
 /-! ## `metamodel_export_tofile` -/
 
